@@ -69,7 +69,7 @@ def generate(rng, tier):
             cut_ = dr[0] if (i // 8) % 2 else 0.5 * (dr[0] + dr[1])
         cases.append({"q": q, "sq": [float(v) for v in sq], "dr": dr, "mat": mat, "fn": i % 3, "lowq": bool((i // 3) % 2) if i >= 9 else bool(i % 2),
                       "cutoff": cut_, "ops": list(seq),
-                      "lorch_flag": bool(i % 2),
+                      "lorch_flag": bool(i % 2), "by_setters": i >= 9 and i % 4 == 2,
                       "gq": rng.choice([None, None, (None, q[-1] + 0.37), (q[0] - 0.05, q[-1] + 2.0), (None, q[-1]),
                                         # set on the instance after the merged data exist, cutting into them: the workflow steps act on the merged data as stored
                                         (q[1] + 0.001, None), (None, q[-2]), (q[1], q[-2])]),
@@ -89,10 +89,22 @@ def generate(rng, tier):
 
 def make_stog(pystog, case):
     m = case["mat"]
-    st = pystog.StoG(**{"NumberDensity": m["rho"], "<b_coh>^2": m["bcoh"], "<b_tot^2>": m["btot"],
-                        "RealSpaceFunction": SL.FNS[case["fn"]], "OmittedXrangeCorrection": case["lowq"],
-                        "FourierFilter": {"Cutoff": case["cutoff"]}, "Outputs": {"StemName": "c12"},
-                        "LorchFlag": bool(case.get("lorch_flag", False))})
+    if case.get("by_setters"):
+        # the same settings assigned through the attributes of a default-constructed instance (in an order a script might use)
+        st = pystog.StoG()
+        st.stem_name = "c12"
+        st.fourier_filter_cutoff = case["cutoff"]
+        st.lorch_flag = bool(case.get("lorch_flag", False))
+        st.low_q_correction = case["lowq"]
+        st.real_space_function = SL.FNS[case["fn"]]
+        st.btot_sqrd = m["btot"]
+        st.bcoh_sqrd = m["bcoh"]
+        st.density = m["rho"]
+    else:
+        st = pystog.StoG(**{"NumberDensity": m["rho"], "<b_coh>^2": m["bcoh"], "<b_tot^2>": m["btot"],
+                            "RealSpaceFunction": SL.FNS[case["fn"]], "OmittedXrangeCorrection": case["lowq"],
+                            "FourierFilter": {"Cutoff": case["cutoff"]}, "Outputs": {"StemName": "c12"},
+                            "LorchFlag": bool(case.get("lorch_flag", False))})
     if case.get("gq"):
         st.qmin, st.qmax = case["gq"]
     st.dr = np.array(case["dr"], float)
